@@ -556,8 +556,8 @@ def rleExpand : List Nat → List Nat
   | v :: c :: rest => List.replicate c v ++ rleExpand rest
   | _ => []
 
-/-- `decodeRLE` after repair F3: odd length and a total different from `itemsCount` are errors,
-    checked before anything is expanded. -/
+/-- `validateRLE` + `decodeRLE` as called by `Dictionary.Decode` after repair F3: odd length and a
+    total different from `itemsCount` are errors, checked before anything is expanded. -/
 def decodeRLE (src : List Nat) (n : Nat) : Res (List Nat) :=
   match src with
   | [] => .ok []
@@ -787,11 +787,25 @@ def float64ListToDecimalIntList_legacy (fd : FloatDec) (src : List (BitVec 64)) 
       | none => .err
       | some ds => .ok (ds, minExp)
 
+/-- Go's `a == b` on float64, on bit patterns: false if either is NaN, true for equal bits and for
+    two zeros of either sign. -/
+def isZero64 (b : BitVec 64) : Bool := b == 0#64 || b == 0x8000000000000000#64
+
+def fEq (a b : BitVec 64) : Bool :=
+  !C12.isNaN a && !C12.isNaN b && (a == b || (isZero64 a && isZero64 b))
+
+/-- `len(decoded) == len(src)` and `decoded[i] == src[i]` for all `i`. -/
+def fEqList : List (BitVec 64) → List (BitVec 64) → Bool
+  | [], [] => true
+  | a :: as, b :: bs => fEq a b && fEqList as bs
+  | _, _ => false
+
 /-- … after repair F1: the encoder decodes its own result and refuses unless every value comes
-    back bit for bit. -/
+    back equal *as a float64* (`decoded[i] != f`): one-ulp losses are refused, while the sign of
+    zero is not significant (upstream's tests pin `-0.0` ↦ `+0.0`, known finding F1z). -/
 def float64ListToDecimalIntList (fd : FloatDec) (src : List (BitVec 64)) : Res (List I64 × BitVec 16) :=
   match float64ListToDecimalIntList_legacy fd src with
-  | .ok (ds, e) => if decimalIntListToFloat64List fd ds e = src then .ok (ds, e) else .err
+  | .ok (ds, e) => if fEqList (decimalIntListToFloat64List fd ds e) src then .ok (ds, e) else .err
   | .err => .err
   | .panic => .panic
 
